@@ -18,6 +18,15 @@ CHECKS = {
  "C02": dict(cat="exploration", tech="runtime monitoring: differential execution of every admitted transaction against go-ethereum's own core.ApplyMessage over its own state.StateDB (shadow world), post-state compared account by account",
    text="Held on the executions produced: each admitted generated transaction is re-executed by the reference state transition under the same block context; error class, VM error, return data, gas used, logs and the (nonce, balance, code hash, full storage, existence) of every account of either world are compared after every transaction, so divergences cannot hide behind later writes.",
    note="Reference shares the fork's interpreter by the property's own definition; documented differences (coinbase tip, warm coinbase and custom precompiles) applied as a thin wrapper; senders fenced to balance >= gasLimit x feeCap + value.", ref="§4 C02"),
+ "C15": dict(cat="exploration", tech="runtime monitoring: account-kind ledger (concrete type, sequence, all balances, locked coins at block time, code/storage presence) asserted before and after every transaction at the tx-boundary observer; same monitor re-run under a skewed wall clock",
+   text="Held on the executions produced: histories whose address pool is module accounts, vesting accounts of all kinds (funded/unfunded, end times on both sides of the block times the history passes, far from the real date), multi-denomination and empty base accounts and contracts; programs and direct transactions touch, pay, probe and self-destruct toward them and vesting accounts spend at and beyond their unlocked amount; protected accounts never disappear or change type, locked coins never leave, deletions only of genuinely empty or self-destructed accounts and without residue.",
+   note="Delegation of locked coins is not treated as spending (staking precompile excluded from this workload); contracts deleted must be known self-destruct-capable programs.", ref="§4 C15"),
+ "C12": dict(cat="exploration", tech="runtime monitoring: exhaustive product (registered method table x final call opcode x chain depth x STATICCALL position) of calldata-forwarder call chains executed as real transactions; per-transaction full-store write set and receipt logs observed at the tx-boundary observer",
+   text="Held on the executions produced (apart from the listed finding): every registered method of every custom precompile kind is called through chains with a STATICCALL ancestor at every position for depths 1-4 and every final opcode, with arguments that demonstrably write outside a static context (controls); write set must stay within sender sequence + fee movement and no log may appear; read-only methods are also probed without static ancestor; state-changing methods must declare and consume gas. The method table is read at run time from the keeper's executor list, so new or re-declared methods are picked up.",
+   note="Known finding (DESIGN §5 #5): non-static final opcode below a STATICCALL ancestor executes writes (defect in the go-ethereum fork); STATICCALL finals, read-only methods and the gas law remain fully checked. Signed-message variants cannot be satisfied by contract callers.", ref="§4 C12"),
+ "C06": dict(cat="exploration", tech="runtime monitoring: per-account nonce ledger at the tx-boundary observer + must-reject hostile encodings + re-offering of every admitted transaction (same block, later blocks, CheckTx)",
+   text="Held on the executions produced: for every offered transaction of both lanes the sender's sequence moves by exactly one iff the consensus result shows it was admitted (also when execution then fails, reverts or the block runs out of gas), the admitted nonce equals the pre-state sequence, no other account's sequence moves, rejected transactions have an empty full-store write set, and none of the hostile classes (unprotected, foreign chain id, From != signer, tampered payload/signature, stale/future nonce, Cosmos wrong sequence/account number/chain id/foreign key) nor any replay is ever admitted.",
+   note="Admission is read from the consensus result (ante events present); signature malleability (high-s) is outside the statement and not asserted.", ref="§4 C06"),
 }
 WIP = "monitor designed in DESIGN.md §4 but not built yet in this revision (work in progress; will be claimed once its check exists and is silent on the unchanged tree)"
 NA = {}
